@@ -87,6 +87,18 @@ func runC05(c *Ctx) []Obligation {
 		{Prop: P, ID: "multiquery.appends-store-op", Fn: "(*store/rootmulti.Store).Query", Assume: []Lit{T(`^var:req\.Prove$`), T(`^store/rootmulti\.RequireProof\(`)},
 			Barrier: []string{`^store/rootmulti\.NewMultiStoreProofOp\(conv<\[\]byte>\(store/rootmulti\.parsePath\(var:req\.Path\)#0\), store/rootmulti\.NewMultiStoreProof\(store/rootmulti\.getCommitInfo\(rs\.DB, `},
 			Target:  RetNotMatch(0, `QueryResult\(`), Why: "a proved key query returns either an error or the sub-store proof extended by the multistore op for that store name at the response height"},
+		// treeEnd (which lets VerifyAbsence accept a key above every proved leaf) is true only if the
+		// last leaf is rightmost in its own path AND every enclosing path was entered on the right spine
+		{Prop: P, ID: "treeend.needs-right-spine-so-far", Fn: R + "_computeRootHash$1", Assume: []Lit{T(`^eq\(0, builtin\.len\(free:leaves\)\)$`), F(`^rightmost$`)},
+			Target: RetNot(1, "false"), Why: "a last leaf below a subtree that is not on the tree's right spine is not the end of the tree"},
+		{Prop: P, ID: "treeend.needs-rightmost-path", Fn: R + "_computeRootHash$1", Assume: []Lit{T(`^eq\(0, builtin\.len\(free:leaves\)\)$`), T(`^rightmost$`), F(`^\(store/iavl\.PathToLeaf\)\.isRightmost\(path\)$`)},
+			Target: RetNot(1, "false"), Why: "a last leaf with a right sibling recorded in its path is not the end of the tree"},
+		{Prop: P, ID: "treeend.recursion-inherits-spine", Fn: R + "_computeRootHash$1", Assume: []Lit{F(`^rightmost$`)},
+			Target: CallTo(`^dyn:free:COMPUTEHASH\(`).Except(`^dyn:free:COMPUTEHASH\(free:innersq\[0\], false\)$`), Why: "a sub-path of a subtree that is off the right spine is itself off the right spine"},
+		{Prop: P, ID: "treeend.unfinished-is-not-end", Fn: R + "_computeRootHash$1", Assume: []Lit{F(`^eq\(0, builtin\.len\(free:leaves\)\)$`), F(`^lt\(0, builtin\.len\(phi:path\)\)$`)},
+			Target: RetNot(1, "false"), Why: "running out of path with leaves left over does not mark the tree end"},
+		{Prop: P, ID: "treeend.root-starts-on-spine", Fn: R + "_computeRootHash",
+			Target: CallTo(`^dyn:var:COMPUTEHASH\(`).Except(`^dyn:var:COMPUTEHASH\(proof\.LeftPath, true\)$`), Why: "the recomputation starts from the left path, on the spine"},
 	}
 	out = append(out, c.Rows(rows)...)
 	// hashing agreement: the bytes hashed for a proof node are the bytes hashed for the tree node
